@@ -40,6 +40,7 @@ type caseT struct {
 	Auth *authCase   `json:",omitempty"`
 	Cors *corsCase   `json:",omitempty"`
 	Seq  *corsSeq    `json:",omitempty"`
+	BSeq *bodySeq    `json:",omitempty"`
 	Meth *methodCase `json:",omitempty"`
 	Sl   *slashCase  `json:",omitempty"`
 }
@@ -89,6 +90,17 @@ type bodyCase struct {
 	// Two stacked limiters with different limits behave like one with the smaller limit (the case line
 	// carries min(Outer, Limit)); only with a well-behaved transport and Outer != Limit.
 	Outer int64 `json:",omitempty"`
+	// PoisonRead ≥ 0 (sequence cases): BEFORE this request, one more request is sent through the same
+	// middleware instance whose handler reads that many body bytes and then panics (recovered by the harness
+	// like a recovery middleware). It yields no case line; this request must be served as if nothing happened.
+	PoisonRead *int `json:",omitempty"`
+	shared     *bodyShared
+}
+
+// bodyShared is one router + middleware instance used by all requests of a sequence.
+type bodyShared struct {
+	r       *router.Router
+	handler func(*router.Context)
 }
 
 var errTransport = errors.New("transport failure")
@@ -309,13 +321,33 @@ func (c *bodyCase) emit(id string, st *hx.Stats) string {
 	rec := httptest.NewRecorder()
 	realErr := false
 	panicked := guard(func() {
-		r := router.MustNew()
+		var r *router.Router
 		chain := []router.HandlerFunc{}
-		if c.Outer > 0 {
-			r.Use(bodylimit.New(bodylimit.WithLimit(c.Outer))) // router-wide, generous or tight
-			chain = append(chain, bodylimit.New(opts...))       // route-level
+		if c.shared != nil {
+			r = c.shared.r
 		} else {
-			r.Use(bodylimit.New(opts...))
+			r = router.MustNew()
+			if c.Outer > 0 {
+				r.Use(bodylimit.New(bodylimit.WithLimit(c.Outer))) // router-wide, generous or tight
+				chain = append(chain, bodylimit.New(opts...))       // route-level
+			} else {
+				r.Use(bodylimit.New(opts...))
+			}
+		}
+		if c.shared != nil && c.PoisonRead != nil {
+			// the poisoning request: reads some bytes, then its handler panics
+			c.shared.handler = func(ctx *router.Context) {
+				buf := make([]byte, *c.PoisonRead)
+				if len(buf) > 0 {
+					io.ReadFull(ctx.Request.Body, buf)
+				}
+				panic("handler failed mid-body")
+			}
+			guard(func() {
+				preq := httptest.NewRequest(http.MethodPost, "/up", strings.NewReader(strings.Repeat("x", int(c.Limit))))
+				preq.ContentLength = -1
+				r.ServeHTTP(httptest.NewRecorder(), preq)
+			})
 		}
 		fuel := len(c.Body) + len(c.Script) + 3
 		chain = append(chain, func(ctx *router.Context) {
@@ -342,7 +374,11 @@ func (c *bodyCase) emit(id string, st *hx.Stats) string {
 				}
 			}
 		})
-		r.POST("/up", chain...)
+		if c.shared != nil {
+			c.shared.handler = chain[len(chain)-1]
+		} else {
+			r.POST("/up", chain...)
+		}
 		if c.Real {
 			srv := httptest.NewServer(r)
 			defer srv.Close()
@@ -419,6 +455,73 @@ func (c *bodyCase) emit(id string, st *hx.Stats) string {
 	return l.String() + hx.Comment(caseT{Kind: "B", Body: c})
 }
 
+// bodySeq: several requests through ONE bodylimit instance (kind R in the comment); every request is judged
+// as an ordinary B case line — the middleware is specified per request.
+type bodySeq struct {
+	Limit int64
+	Items []*bodyCase
+}
+
+func (q *bodySeq) emit(id string, st *hx.Stats) string {
+	sh := &bodyShared{r: router.MustNew()}
+	sh.r.Use(bodylimit.New(bodylimit.WithLimit(q.Limit)))
+	sh.r.POST("/up", func(ctx *router.Context) { sh.handler(ctx) })
+	var lines []string
+	for i, it := range q.Items {
+		it.Limit, it.Skip, it.Outer, it.Real, it.shared = q.Limit, false, 0, false, sh
+		line := it.emit(fmt.Sprintf("%s.r%d", id, i), nil)
+		it.shared = nil
+		if line == "" {
+			continue
+		}
+		if j := strings.Index(line, " # "); j >= 0 {
+			line = line[:j]
+		}
+		lines = append(lines, line+hx.Comment(caseT{Kind: "R", BSeq: q}))
+	}
+	if st != nil {
+		b, _ := json.Marshal(q)
+		st.Case(string(b), true)
+		st.Count("B.sequence_on_one_instance")
+		for _, it := range q.Items {
+			if it.PoisonRead != nil {
+				st.Count("B.request_after_a_handler_that_panicked_mid_body")
+			}
+		}
+	}
+	return strings.Join(lines, "\n")
+}
+
+func genBodySeq(r *hx.Rand) *bodySeq {
+	q := &bodySeq{Limit: int64(hx.Pick(r, []int{1, 2, 3, 5, 8}))}
+	for i, n := 0, r.Range(2, 5); i < n; i++ {
+		it := genBody(r)
+		it.Limit = q.Limit
+		// bodies around this sequence's limit
+		nb := hx.Pick(r, []int{0, 1, int(q.Limit) - 1, int(q.Limit), int(q.Limit), int(q.Limit) + 1, int(q.Limit) + 3})
+		if nb < 0 {
+			nb = 0
+		}
+		it.Body = make([]byte, nb)
+		for j := range it.Body {
+			it.Body[j] = byte('a' + r.Intn(26))
+		}
+		if it.CL != nil && r.Chance(1, 2) {
+			t := strconv.Itoa(nb)
+			it.CL = &t
+		}
+		if r.Chance(1, 2) {
+			p := hx.Pick(r, []int{0, 1, int(q.Limit), int(q.Limit) - 1, int(q.Limit)})
+			if p < 0 {
+				p = 0
+			}
+			it.PoisonRead = &p
+		}
+		q.Items = append(q.Items, it)
+	}
+	return q
+}
+
 // ---------------------------------------------------------------------------------------------
 // basicauth
 
@@ -429,6 +532,21 @@ type authCase struct {
 	// Skip: basicauth.WithSkipPaths(...); Target: the request target as sent on the request line ("" = /p)
 	Skip   []string `json:",omitempty"`
 	Target string   `json:",omitempty"`
+	// Validator: basicauth.WithValidator(authValidator) instead of the user table.
+	// CtxDone: the request arrives with an already cancelled context, on a router built with
+	// router.WithoutCancellationCheck() (so that the chain is not cut short before the middleware)
+	Validator bool `json:",omitempty"`
+	CtxDone   bool `json:",omitempty"`
+}
+
+// authValidator is the user-supplied validator of the Validator cases: the password must be the user name
+// backwards followed by "!" (any user name).
+func authValidator(u, p string) bool {
+	b := []byte(u)
+	for i, j := 0, len(b)-1; i < j; i, j = i+1, j-1 {
+		b[i], b[j] = b[j], b[i]
+	}
+	return p == string(b)+"!"
 }
 
 var authSkipPool = []string{"/health", "/public/", "/reports/../health", "/p", "/a/b", "/"}
@@ -444,6 +562,10 @@ func b64(s string) string { return base64.StdEncoding.EncodeToString([]byte(s)) 
 
 func genAuth(r *hx.Rand) *authCase {
 	c := &authCase{Realm: B(hx.Pick(r, []string{"Restricted", "", "a\"b", "Admin Area"}))}
+	if r.Chance(1, 5) {
+		c.Validator = true
+	}
+	c.CtxDone = r.Chance(1, 6)
 	if r.Chance(1, 4) {
 		// skip paths and request paths that are equal only after cleaning / decoding / case folding
 		for i, n := 0, r.Range(1, 3); i < n; i++ {
@@ -498,6 +620,16 @@ func genAuth(r *hx.Rand) *authCase {
 			}
 		}
 		return u + ":" + p
+	}
+	if c.Validator && r.Chance(1, 2) {
+		u := hx.Pick(r, []string{"admin", "bob", "", "a:b", "ünï"})
+		rb := []byte(u)
+		for i, j := 0, len(rb)-1; i < j; i, j = i+1, j-1 {
+			rb[i], rb[j] = rb[j], rb[i]
+		}
+		ab := B("Basic " + b64(u+":"+string(rb)+"!"))
+		c.Auth = &ab
+		return c
 	}
 	var a string
 	switch r.Intn(16) {
@@ -578,6 +710,18 @@ func (c *authCase) emit(id string, st *hx.Stats) string {
 	if !decOK {
 		l.Bool(false)
 	}
+	if c.Validator {
+		verdict := false
+		if decOK {
+			d, _ := base64.StdEncoding.DecodeString(auth[6:])
+			if u, p, ok := strings.Cut(string(d), ":"); ok {
+				verdict = authValidator(u, p)
+			}
+		}
+		l.Bool(true).Bool(verdict)
+	} else {
+		l.Bool(false)
+	}
 	in := l.String()
 
 	var ran bool
@@ -586,6 +730,15 @@ func (c *authCase) emit(id string, st *hx.Stats) string {
 	panicked := guard(func() {
 		r := router.MustNew()
 		aopts := []basicauth.Option{basicauth.WithUsers(users), basicauth.WithRealm(string(c.Realm))}
+		if c.Validator {
+			aopts = append(aopts, basicauth.WithValidator(authValidator))
+		}
+		if c.CtxDone {
+			r = router.MustNew(router.WithoutCancellationCheck())
+			cctx, cancel := context.WithCancel(context.Background())
+			cancel()
+			areq = areq.WithContext(cctx)
+		}
 		if len(c.Skip) > 0 {
 			aopts = append(aopts, basicauth.WithSkipPaths(c.Skip...))
 		}
@@ -627,6 +780,12 @@ func (c *authCase) emit(id string, st *hx.Stats) string {
 			st.Count("A.ran")
 		} else {
 			st.Count("A.rejected")
+		}
+		if c.Validator {
+			st.Count("A.with_validator")
+		}
+		if c.CtxDone {
+			st.Count("A.request_context_already_cancelled")
 		}
 		if len(c.Skip) > 0 {
 			st.Count("A.with_skip_paths")
@@ -846,6 +1005,10 @@ type seqReq struct {
 type corsSeq struct {
 	Opts []corsOpt
 	Reqs []seqReq
+	// AliasExtra: every origin list of Opts is passed to the middleware as a slice with spare capacity, and
+	// after the instance has been built a SECOND instance is built from append(thatSlice, AliasExtra...) —
+	// the two lists share one backing array (configuration code that derives lists from a common base)
+	AliasExtra []B `json:",omitempty"`
 }
 
 func (q *corsSeq) emit(id string, st *hx.Stats) string {
@@ -872,6 +1035,22 @@ func (q *corsSeq) emit(id string, st *hx.Stats) string {
 	}
 	cc := &corsCase{}
 	_, opts, _, _ := cc.build(id, q.Opts, policy)
+	var aliased [][]string
+	if len(q.AliasExtra) > 0 {
+		// rebuild the origin-list options on slices with spare capacity
+		opts = opts[:0]
+		for _, o := range q.Opts {
+			if o.K == "O" {
+				base := make([]string, len(o.L), len(o.L)+len(q.AliasExtra)+2)
+				copy(base, strs(o.L))
+				aliased = append(aliased, base)
+				opts = append(opts, cors.WithAllowedOrigins(base...))
+				continue
+			}
+			_, one, _, _ := cc.build(id, []corsOpt{o}, policy)
+			opts = append(opts, one...)
+		}
+	}
 	r := router.MustNew()
 	r.Use(cors.New(opts...))
 	type ranKey struct{}
@@ -883,6 +1062,10 @@ func (q *corsSeq) emit(id string, st *hx.Stats) string {
 	r.GET("/c", h)
 	r.POST("/c", h)
 	r.OPTIONS("/c", h)
+	for _, base := range aliased {
+		// the second instance: its list extends the first one's in the same backing array
+		_ = cors.New(cors.WithAllowedOrigins(append(base, strs(q.AliasExtra)...)...))
+	}
 
 	type resT struct {
 		ran      bool
@@ -960,6 +1143,9 @@ func (q *corsSeq) emit(id string, st *hx.Stats) string {
 		b, _ := json.Marshal(q)
 		st.Case(string(b), true)
 		st.Count("C.sequence_on_one_instance")
+		if len(q.AliasExtra) > 0 {
+			st.Count("C.second_instance_built_from_an_aliasing_origin_list")
+		}
 		if overlapped {
 			st.Count("C.request_served_while_another_is_inside_the_origin_function")
 		}
@@ -984,6 +1170,19 @@ func genCorsSeq(r *hx.Rand) *corsSeq {
 	}
 	if r.Chance(1, 2) {
 		q.Opts = append(q.Opts, corsOpt{K: "F", B: true})
+	}
+	if r.Chance(1, 3) {
+		// an origin list, and a second instance whose list extends it with origins that sort in front
+		q.Opts = []corsOpt{{K: "O", L: []B{B("https://m.example.com"), B("https://z.example.com"), B("https://app.example.com")}[:r.Range(1, 3)]}}
+		if r.Chance(1, 2) {
+			q.Opts = append(q.Opts, corsOpt{K: "K", B: true})
+		}
+		q.AliasExtra = []B{B("https://admin.example.com"), B("https://a.example.com"), B("http://b.test")}[:r.Range(1, 3)]
+		for i, n := 0, r.Range(2, 5); i < n; i++ {
+			q.Reqs = append(q.Reqs, seqReq{Origin: B(hx.Pick(r, []string{"https://admin.example.com", "https://a.example.com", "https://m.example.com",
+				"https://z.example.com", "https://app.example.com", "http://b.test"})), Method: hx.Pick(r, []string{"GET", "OPTIONS"})})
+		}
+		return q
 	}
 	good := []string{"https://app.example.com", "https://sub.app.example.com", "null"}
 	evil := []string{"https://evil.example.org", "https://app.example.com.evil.org", "http://b.test", "https://app.example.com:8443"}
@@ -1012,6 +1211,8 @@ type methOpt struct {
 }
 
 type methodCase struct {
+	// Stack: options of a SECOND instance mounted after the first one (router mode only)
+	Stack    []methOpt `json:",omitempty"`
 	Opts     []methOpt
 	Method   string
 	Direct   bool // call the middleware on a bare router.Context (any method string) instead of through a router
@@ -1053,7 +1254,17 @@ func genMethod(r *hx.Rand) *methodCase {
 			c.Opts = append(c.Opts, methOpt{K: "C", B: r.Chance(1, 2)})
 		}
 	}
-	if r.Chance(1, 4) {
+	if r.Chance(1, 6) {
+		// a second instance behind the first, with its own header / lists
+		c.Stack = []methOpt{{K: "H", S: B(hx.Pick(r, hdrNamePool))}}
+		if r.Chance(1, 2) {
+			c.Stack = append(c.Stack, methOpt{K: "A", L: mlist()})
+		}
+		if r.Chance(1, 3) {
+			c.Stack = append(c.Stack, methOpt{K: "O", L: mlist()})
+		}
+	}
+	if len(c.Stack) == 0 && r.Chance(1, 4) {
 		c.Direct = true
 		c.Method = hx.Pick(r, append(append([]string(nil), oddMethods...), stdMethods...))
 	} else if r.Chance(2, 3) {
@@ -1121,13 +1332,16 @@ func genMethod(r *hx.Rand) *methodCase {
 	return c
 }
 
-func (c *methodCase) emit(id string, st *hx.Stats) string {
-	l := hx.NewLine(id).Tok("M").Nat(len(c.Opts))
+// methLine renders one method-override instance's configuration, the method it finds on the request, the
+// original-method mark an outer instance left in the context and the parameter tables (evaluated with the
+// real library functions on the request).
+func methLine(id string, mopts []methOpt, method, ctxOrig string, req *http.Request) (*hx.Line, []methodoverride.Option) {
+	l := hx.NewLine(id).Tok("M").Nat(len(mopts))
 	var opts []methodoverride.Option
 	hdrNames := map[string]bool{"X-HTTP-Method-Override": true}
 	qryNames := map[string]bool{"_method": true}
-	methods := map[string]bool{c.Method: true, "PUT": true, "PATCH": true, "DELETE": true, "POST": true}
-	for _, o := range c.Opts {
+	methods := map[string]bool{method: true, "PUT": true, "PATCH": true, "DELETE": true, "POST": true}
+	for _, o := range mopts {
 		l.Tok(o.K)
 		switch o.K {
 		case "H":
@@ -1158,16 +1372,7 @@ func (c *methodCase) emit(id string, st *hx.Stats) string {
 			opts = append(opts, methodoverride.WithRequireCSRFToken(o.B))
 		}
 	}
-	// the request
-	req := httptest.NewRequest(http.MethodGet, "/m", nil)
-	req.Method = c.Method
-	req.URL.RawQuery = string(c.RawQuery)
-	req.ContentLength = c.CLen
-	for k, v := range c.Hdr {
-		req.Header.Set(k, string(v))
-	}
-	l.Str(c.Method).Bool(false).Bool(req.ContentLength == 0)
-	// parameter tables, evaluated with the real library functions
+	l.Str(method).Str(ctxOrig).Bool(false).Bool(req.ContentLength == 0)
 	sorted := func(m map[string]bool) []string {
 		out := make([]string, 0, len(m))
 		for k := range m {
@@ -1201,6 +1406,22 @@ func (c *methodCase) emit(id string, st *hx.Stats) string {
 	for _, v := range vs {
 		l.Str(v).Str(strings.ToUpper(strings.TrimSpace(v)))
 	}
+	return l, opts
+}
+
+func (c *methodCase) emit(id string, st *hx.Stats) string {
+	// the request
+	req := httptest.NewRequest(http.MethodGet, "/m", nil)
+	req.Method = c.Method
+	req.URL.RawQuery = string(c.RawQuery)
+	req.ContentLength = c.CLen
+	for k, v := range c.Hdr {
+		req.Header.Set(k, string(v))
+	}
+	if len(c.Stack) > 0 && !c.Direct {
+		return c.emitStacked(id, st, req)
+	}
+	l, opts := methLine(id, c.Opts, c.Method, "", req)
 	in := l.String()
 
 	var ran bool
@@ -1251,6 +1472,62 @@ func (c *methodCase) emit(id string, st *hx.Stats) string {
 		}
 	}
 	return l.String() + hx.Comment(caseT{Kind: "M", Meth: c})
+}
+
+// emitStacked: two method-override instances mounted one after the other (c.Opts, then c.Stack) with a probe
+// between them. Two ordinary case lines: the first instance on the request as sent (what the probe saw), the
+// second instance on what it found (method = what the probe saw; the first instance's recorded original in
+// the context) judged by what the terminal handler saw.
+func (c *methodCase) emitStacked(id string, st *hx.Stats, req *http.Request) string {
+	l1, opts1 := methLine(id, c.Opts, c.Method, "", req)
+	var ran1, ran2 bool
+	var seen1, orig1, seen2, orig2 string
+	_, opts2 := methLine(id, c.Stack, "", "", req)
+	panicked := guard(func() {
+		r := router.MustNew()
+		r.Use(methodoverride.New(opts1...))
+		r.Use(func(ctx *router.Context) {
+			ran1, seen1, orig1 = true, ctx.Request.Method, methodoverride.OriginalMethod(ctx)
+			ctx.Next()
+		})
+		r.Use(methodoverride.New(opts2...))
+		h := func(ctx *router.Context) {
+			ran2, seen2, orig2 = true, ctx.Request.Method, methodoverride.OriginalMethod(ctx)
+		}
+		r.GET("/m", h)
+		r.POST("/m", h)
+		r.PUT("/m", h)
+		r.PATCH("/m", h)
+		r.DELETE("/m", h)
+		r.HEAD("/m", h)
+		r.OPTIONS("/m", h)
+		r.ServeHTTP(httptest.NewRecorder(), req)
+	})
+	req.Method = c.Method // the middleware rewrote it on the shared request: the tables below are about the original request
+	ctxOrig := ""
+	if seen1 != c.Method {
+		ctxOrig = orig1
+	}
+	l2, _ := methLine(id+".s2", c.Stack, seen1, ctxOrig, req)
+	in := l1.String() + l2.String()
+	l1.Sep()
+	l2.Sep()
+	if panicked {
+		l1.Tok("P")
+		l2.Tok("P")
+	} else {
+		l1.Bool(ran1).Str(seen1).Str(orig1)
+		l2.Bool(ran2).Str(seen2).Str(orig2)
+	}
+	if st != nil {
+		st.Case(in, true)
+		st.Count("M.two_stacked_instances")
+		if seen1 != c.Method && seen2 != seen1 {
+			st.Count("M.both_stacked_instances_rewrote")
+		}
+	}
+	cm := hx.Comment(caseT{Kind: "M", Meth: c})
+	return l1.String() + cm + "\n" + l2.String() + cm
 }
 
 // ---------------------------------------------------------------------------------------------
@@ -1420,8 +1697,13 @@ func emitCase(id string, k caseT, st *hx.Stats) string {
 			id = id[:i]
 		}
 		return k.Seq.emit(id, st)
+	case "R":
+		if i := strings.LastIndex(id, ".r"); i > 0 {
+			id = id[:i]
+		}
+		return k.BSeq.emit(id, st)
 	case "M":
-		return k.Meth.emit(id, st)
+		return k.Meth.emit(strings.TrimSuffix(id, ".s2"), st)
 	case "T":
 		return k.Sl.emit(id, st)
 	}
@@ -1475,6 +1757,9 @@ func fixedCases() []caseT {
 		{Kind: "M", Meth: &methodCase{Method: "GET", Hdr: map[string]B{"X-HTTP-Method-Override": B("DELETE")}}},
 		{Kind: "M", Meth: &methodCase{Method: "POST", Hdr: map[string]B{"X-HTTP-Method-Override": B("TRACE")}}},
 		{Kind: "M", Meth: &methodCase{Method: "POST", Hdr: map[string]B{"X-HTTP-Method-Override": B(" delete ")}}},
+		// two stacked instances: the second one finds PUT (not in its only-on list) and must leave it alone
+		{Kind: "M", Meth: &methodCase{Method: "POST", Hdr: map[string]B{"X-HTTP-Method-Override": B("PUT"), "X-Method": B("DELETE")},
+			Stack: []methOpt{{K: "H", S: B("X-Method")}}}},
 		// look-alikes of the override parameter must not override
 		{Kind: "M", Meth: &methodCase{Method: "POST", Hdr: map[string]B{}, RawQuery: B("payment_method=put")}},
 		{Kind: "M", Meth: &methodCase{Method: "POST", Hdr: map[string]B{}, RawQuery: B("return_to=/items/7?_method=DELETE")}},
@@ -1500,7 +1785,11 @@ func main() {
 			var k caseT
 			switch i % 5 {
 			case 0:
-				k = caseT{Kind: "B", Body: genBody(r)}
+				if r.Chance(1, 15) {
+					k = caseT{Kind: "R", BSeq: genBodySeq(r)}
+				} else {
+					k = caseT{Kind: "B", Body: genBody(r)}
+				}
 			case 1:
 				k = caseT{Kind: "A", Auth: genAuth(r)}
 			case 2:
